@@ -13,8 +13,8 @@ open Claripy.FP Claripy.FP.Extract
 theorem div_gap (pa pb ka eb sh M Δ : Nat) (hpa : pa < 2 ^ 24) (hpb : pb < 2 ^ 24) (hM : 1 ≤ M) (hΔ : 0 < Δ)
     (h : 2 * (pa * 2 ^ ka) + Δ = M * (pb * 2 ^ eb * 2 ^ sh) ∨ 2 * (pa * 2 ^ ka) = M * (pb * 2 ^ eb * 2 ^ sh) + Δ) :
     pb * 2 ^ eb * 2 ^ sh ≤ Δ * 2 ^ 27 := by
-  have hsc : 2 * (pa * 2 ^ ka) = pa * 2 ^ (ka + 1) := by rw [Nat.pow_succ]; ring
-  have hdd : pb * 2 ^ eb * 2 ^ sh = pb * 2 ^ (eb + sh) := by rw [Nat.pow_add]; ring
+  have hsc : 2 * (pa * 2 ^ ka) = pa * 2 ^ (ka + 1) := by rw [Nat.pow_succ]; grind
+  have hdd : pb * 2 ^ eb * 2 ^ sh = pb * 2 ^ (eb + sh) := by rw [Nat.pow_add]; grind
   rw [hsc, hdd] at h; rw [hdd]
   have hMdd : pb * 2 ^ (eb + sh) ≤ M * (pb * 2 ^ (eb + sh)) := Nat.le_mul_of_pos_left _ hM
   -- a power of two dividing both terms divides Δ
